@@ -123,6 +123,27 @@ func c19gen(g *gen, tier string, w *bufio.Writer) {
 		fmt.Fprintf(w, "get %s\n", strings.Join(vs, ","))
 	}
 	fmt.Fprintf(w, "get -\n")
+	// counters and the query log around real query streams (every response class; repeated queries
+	// so that cache hits occur)
+	files := 12
+	if tier == "thorough" {
+		files = 300
+	}
+	for i := 0; i < files; i++ {
+		withLoc := i%2 == 1
+		df := g.genDataFile(dataOpts{v6: true, maxZone: 3, locs: withLoc, maps: withLoc})
+		qs := g.genQueries(df, 30, withLoc)
+		for k := 0; k < 10; k++ {
+			qs = append(qs, qs[g.intn(len(qs))]) // repeats: cache hits
+		}
+		for _, q := range qs {
+			if g.chance(1, 12) {
+				q.opt = true
+				q.version = 1
+			}
+		}
+		fmt.Fprintln(w, "servestats"+serveOpLine(df, qs)[len("serve"):])
+	}
 }
 
 func c19runWindow(c string) string {
@@ -163,6 +184,8 @@ func c19runWindow(c string) string {
 func c19run(line string) (string, string) {
 	f := strings.Fields(line)
 	switch f[0] {
+	case "servestats":
+		return serveStatsRun(f)
 	case "win":
 		cases := strings.Split(f[1], ";")
 		res := make([]string, len(cases))
